@@ -163,6 +163,7 @@ struct Obs
   std::vector<std::vector<double>> cum; // per class: Inf, IInf, Sup, SSup
   std::vector<double> F;                // pProb at B[i]
   double Elo = 0, Eup = 0, Zexp = 1;
+  bool mii = false; // invariant-mixed: two or more nested class values lie within the 1e-12 resolution of the invariant
   bool mro = false; // median-valued classes: only the rescaling moved the values (see medianRescaleOnly)
   bool hasCdf = false;
 };
@@ -276,6 +277,19 @@ static Obs observe(const DiscreteDistributionInterface& d, const Cfg& c)
     }
     catch (...) { o.hasCdf = false; }
     if (c.median && c.scheme != 2) o.mro = medianRescaleOnly(d, o);
+  }
+  if (c.fam == "invariant")
+  {
+    try
+    {
+      const auto* im = dynamic_cast<const bpp::InvariantMixedDiscreteDistribution*>(&d);
+      size_t nearInv = 0;
+      if (im)
+        for (double x : im->variableSubDistribution().getCategories())
+          if (std::fabs(x - c.invariant) <= 1.0000001e-12) ++nearInv;
+      o.mii = nearInv >= 2;
+    }
+    catch (...) {}
   }
   return o;
 }
@@ -458,7 +472,7 @@ static Obj encode(const Obs& o, const Cfg& c, const Obs* prev, const Obs* twin, 
     j.kv("dm", fp(dm / unit)).kv("pm", fp(pm / unit));
   }
   // history: bit-for-bit equality with the previous observation and with the fresh twin
-  j.kv("mro", o.mro); // for the signature of a known finding only
+  j.kv("mii", o.mii).kv("mro", o.mro); // for the signature of a known finding only
   j.kv("narrow", classifyShape(o) == 1); // for the signature of a known finding only; no predicate reads it
   j.kv("same", prev ? obsEq(o, *prev) : false);
   Obj tw;
@@ -1022,7 +1036,7 @@ public:
     bool avNarrow = !next.median && avoid("C09-class-narrower-than-precision");
     bool avMedian = next.median && avoid("C09-median-values-leave-their-class");
     bool avEmpty = avoid("C09-empty-class-equal-prob");
-    if (!avNarrow && !avMedian && !avEmpty && !(next.fam == "invariant" && avoid("C09-class-narrower-than-precision"))) return true;
+    if (!avNarrow && !avMedian && !avEmpty && !(next.fam == "invariant" && avoid("C09-invariant-merge-count"))) return true;
     try
     {
       Guard g(3);
@@ -1041,15 +1055,9 @@ public:
         Obs o = observe(*d, c);
         int cls = classifyShape(o);
         if (g_dump) fprintf(stderr, "  scratch %s n=%zu median=%d: shape class %d, mro %d, sizes %zu\n", c.fam.c_str(), c.n, int(c.median), cls, int(o.mro), o.v.size());
-        // variant of the narrow-class situation: two or more nested values closer than the 1e-12 resolution of
-        // the compound's class map to the invariant are merged with it (class count below the nested count)
-        if (next.fam == "invariant" && &c != &todo[0] && avoid("C09-class-narrower-than-precision"))
-        {
-          size_t nearInv = 0;
-          for (double x : o.v)
-            if (std::fabs(x - next.invariant) <= 1.0000001e-12) ++nearInv;
-          if (nearInv >= 2) { ++steered; return false; }
-        }
+        // known finding C09-invariant-merge-count: two or more nested values closer than the 1e-12 resolution of
+        // the compound's class map to the invariant are all merged with it (class count below the nested count)
+        if (o.mii && avoid("C09-invariant-merge-count")) { ++steered; return false; }
         bool bad = (avNarrow && cls == 1) || (avMedian && cls != 0 && o.mro) || (avEmpty && c.kind() == "cont" && c.scheme == 1 && hasEmptyClass(o));
         // (scheme 1 only: "equal probabilities when possible" has to fall back to equal intervals instead)
         if (bad) { ++steered; return false; }
@@ -1322,6 +1330,20 @@ void Runner::probe(const std::string& id)
     doRestrict(Restr{-1.0, 3.0, true, true});                                        // tp must now stay <= 3 (nested constraint only)
     doSetParam({{Target(-1, "p"), 0.75}, {Target(0, "tp"), 5.0}}, 1);                // refused by the nested object ...
     doSetMedian(true);                                                               // ... but p = 0.75 shows up here
+  }
+  else if (id == "C09-invariant-merge-count")
+  {
+    // Beta(0.1, 1), 32 classes: the two lowest class values (~1e-16, ~5e-13) are both within 1e-12 of the invariant 0
+    c.fam = "invariant";
+    c.n = 32;
+    c.par = {{"p", 0.3}};
+    Cfg in;
+    in.fam = "beta";
+    in.n = 32;
+    in.scheme = 1;
+    in.par = {{"alpha", 0.1}, {"beta", 1.0}};
+    c.inner.push_back(in);
+    doConstruct(c);
   }
   else if (id == "C09-median-values-leave-their-class")
   {
